@@ -19,6 +19,7 @@ const (
 	SWrite      Step = "write"  // write one body byte (commits the response)
 	SProbe      Step = "probe"  // sample IsAborted()
 	SReturn     Step = "return" // return early
+	SStatus     Step = "status" // c.SetStatus(201): selects a status without committing it
 )
 
 // Behaviour is the body of one handler: a sequence of steps.
@@ -82,6 +83,10 @@ func RunChain(bs []Behaviour, abortCode int) ChainResult {
 					if res.Status == 0 {
 						res.Status = 200
 					}
+				}
+			case SStatus:
+				if !res.Committed {
+					pendingStatus = 201
 				}
 			case SProbe:
 				res.Events = append(res.Events, Event{Kind: "probe", H: k, Aborted: aborted})
